@@ -50,6 +50,10 @@ structure SubInfo where
   /-- a converter call of this subscription produced `Some` while its actor was stopped:
   the send failed, the subscription must have been dropped -/
   rejected : Bool := false
+  /-- converter calls of this subscription reported by the implementation in grants that began
+  after its subscriber had stopped: the first one is how the port finds out; a second one means
+  the stopped subscriber was not dropped -/
+  callsAfterStop : Nat := 0
   /-- the converter publishes re-entrantly (kind `echo`) -/
   echo : Bool := false
   /-- the converter drops the port from inside a call (kind `dropper`) -/
@@ -170,8 +174,12 @@ def oracleCalls (st : St) (impl : String) : List SubInfo × List String :=
       | none => (subs, bad ++ ["unknown-subscription"])
       | some i =>
         let bad := if i.rejected then bad ++ ["dead-dropped"] else bad
-        let rej := (i.conv km.2).isSome && st.stopped.contains i.actor
-        (subs.map fun j => if j.key == km.1 then { j with rejected := j.rejected || rej } else j, bad))
+        let isStopped := st.stopped.contains i.actor
+        let bad := if isStopped && i.callsAfterStop ≥ 1 then bad ++ ["stopped-not-dropped"] else bad
+        let rej := (i.conv km.2).isSome && isStopped
+        (subs.map fun j => if j.key == km.1 then
+            { j with rejected := j.rejected || rej,
+                     callsAfterStop := j.callsAfterStop + (if isStopped then 1 else 0) } else j, bad))
       (st.subs, [])
 
 /-- `id:key:conv` -/
